@@ -536,6 +536,21 @@ func concurrent(b balancer, ncalls int) h.Scenario {
 			}
 		})
 		if len(s.Hangs) == 0 && !s.Pruned && s.Aborted == "" {
+			if b.name == "roundrobin" && ncalls%b.n == 0 {
+				// a whole number of cycles, issued concurrently: every server the same number of times
+				counts := make([]int, b.n)
+				for _, x := range picked {
+					if x >= 0 && x < b.n {
+						counts[x]++
+					}
+				}
+				for _, c := range counts {
+					if c != ncalls/b.n {
+						o.Viol = append(o.Viol, h.V{Sig: b.name + "|concurrent|cycle-not-served-equally", What: fmt.Sprintf("%s: %d concurrent calls over %d servers were served %v times", name, ncalls, b.n, counts)})
+						break
+					}
+				}
+			}
 			for i := range after {
 				if after[i] != 2 {
 					o.Viol = append(o.Viol, h.V{Sig: b.name + "|concurrent|rotation-broken-after-concurrent-calls", What: fmt.Sprintf("%s: after the concurrent calls (picked %v) two full cycles of sequential calls served the servers %v times, want 2 each", name, picked, after)})
